@@ -111,3 +111,10 @@ _generate0 = generate
 
 def generate(rng, n, tier):
     return list(_generate0(rng, n, tier)) + [_grid_case(rng) for _ in range(max(6, n // 8))]
+
+
+# decimal timesteps without global_time_precision: every call still lands exactly on the float it computed for
+# its end, the clock never passes it, row times increase
+from harness import noprec as _np_fam                   # noqa: E402
+from harness.mixins import add_family as _add_family    # noqa: E402
+_add_family(globals(), _np_fam, 'noprec', _np_fam.oracle, share=0.1)
